@@ -216,7 +216,7 @@ fn run_history(h: &Hist) -> (Hist, Vec<Obs>) {
     let exe = std::env::current_exe().expect("exe");
     let tdir = std::env::temp_dir().join(format!("tvh-c25-{}-{}.d", std::process::id(), n));
     let _ = std::fs::create_dir_all(&tdir);
-    let cmd = format!("ulimit -v 6000000; exec '{}' child '{}'", exe.display(), f.display());
+    let cmd = format!("ulimit -v 1500000; exec '{}' child '{}'", exe.display(), f.display());
     let outp = std::process::Command::new("sh").arg("-c").arg(&cmd).env("TMPDIR", &tdir)
         .stderr(std::process::Stdio::null()).output();
     let _ = std::fs::remove_file(&f);
@@ -414,9 +414,14 @@ fn gen_hist(rng: &mut Rng, kind: Kind, max_ops: usize) -> Hist {
     let mut first_row: Option<u64> = None;
     let mut top_row: Option<(u64, u8)> = None; // row of the node that should be the entry point
     let mut last_q: Option<(Vec<i32>, usize, usize)> = None;
+    let mut used: usize = 64; // page bytes in use; only the Overflow family goes past half a page (F-C25-3)
     while ops.len() < n_ops {
-        let c = rng.below(100);
-        let want_insert = live.len() < 2 || c < 45 || (kind == Kind::Overflow && c < 80);
+        let mut c = rng.below(100);
+        let mut want_insert = live.len() < 2 || c < 45 || (kind == Kind::Overflow && c < 80);
+        if want_insert && kind != Kind::Overflow && used + node_bytes(0) + 4 > 8192 {
+            if live.len() < 2 { break; }
+            want_insert = false; c = 45 + rng.below(55);
+        }
         if want_insert {
             let row = if !dead.is_empty() && rng.chance(1, 4) { let i = rng.below(dead.len() as u64) as usize; dead.swap_remove(i) }
                       else { let r = next_row; next_row += 1 + rng.below(2); r };
@@ -424,9 +429,11 @@ fn gen_hist(rng: &mut Rng, kind: Kind, max_ops: usize) -> Hist {
             let mut blind = kind == Kind::Blind || (kind == Kind::Malformed && rng.chance(1, 5));
             if kind == Kind::Malformed && rng.chance(1, 6) { if rng.chance(1, 2) { v.pop(); } else { v.push(1); } blind = false; }
             let lvl = if kind == Kind::Overflow && rng.chance(1, 3) { *rng.pick(&[15u8, 15, 12, 9]) } else { pick_level(rng) };
+            let lvl = if kind != Kind::Overflow && used + node_bytes(lvl) + 4 > 8192 { 0 } else { lvl };
             let good = v.len() == dims;
             ops.push(Op::Ins { row, v, lvl, blind });
             if good {
+                used += node_bytes(lvl) + 4;
                 live.push(row);
                 if first_row.is_none() { first_row = Some(row); }
                 match top_row { Some((_, l)) if l >= lvl => {}, _ => top_row = Some((row, lvl)) }
